@@ -425,6 +425,32 @@ def check_C01(tier):
         h = fs.History(inst, [("kill", t), ("run", None)], label="appending command killed after a partial write (%.1f s), run again without cleaning" % t); h.accept = False
         hs.append(h)
     R.histories(inst, hs)
+    # the same without appending, the output directory exists already (as in any working directory that has been used before)
+    inst = FC(); inst["name"] = "FCPART"; inst["ctl"] = {"a.sleep": "0.6"}; inst["mkdirs"] = ["o"]
+    hs = []
+    for t in (0.3, 0.45):
+        h = fs.History(inst, [("kill", t), ("run", None)], label="command killed after a partial write (%.2f s), output directory exists, run again without cleaning" % t); h.accept = False
+        hs.append(h)
+    R.histories(inst, hs)
+    # a task whose declared output is a DIRECTORY with many files: killed while it is being published, the directory is either absent or whole
+    dinst = dict(name="DIR1", max=1, bufsize=2,
+                 procs=[zoo.src("s", ["1"]),
+                        dict(name="a", kind="cmd", ins=["in"], outs=["parts"], outpaths={"parts": "o/parts"},
+                             arg="mkdir {o:parts} && for i in $(seq 1 150); do echo part$i > {o:parts}/p$i; done && cat {i:in} > /dev/null")],
+                 edges=[zoo.E("s.out", "a.in")])
+    for spec in ["fin.rename.begin@o/parts#1", "fin.rename.done@o/parts#1", "fin.extra.done@o/parts/#1", "fin.extra.done@o/parts/#40", "fin.extra.begin@o/parts/#100", "fin.rmtmp.begin@_scipipe_tmp.a.#1"]:
+        d = scratch("dir1")
+        try:
+            prepare_dir(dinst, d)
+            rr = run_real(dinst, d, env={"VERIF_CRASH": spec}, timeout=40); chk.evaluations += 1
+            pd = os.path.join(d, "o", "parts")
+            nfiles = len(os.listdir(pd)) if os.path.isdir(pd) else None
+            if nfiles is not None and nfiles != 150:
+                chk.violation("directory output: after a kill at %s the declared output path o/parts holds %d of 150 files" % (spec, nfiles), dict(instance=dinst, crash=spec))
+            else:
+                chk.nontrivial.add("dir-output:%s:%s" % (spec, nfiles))
+        finally:
+            rmtree(d)
     # the standard command as a non-final member of an AND-list: its failure must still fail the task
     andlist = [FA(), FB(2)]
     for i in andlist:
@@ -724,6 +750,44 @@ def check_C02(tier):
             if use1 != "USER REPORT\n":
                 chk.violation("downstream did not receive the existing file of the placeholder-less out-port: o/use_report_1.txt = %r" % use1, dict(instance=nph))
             if "RAN 2.txt" in ran: chk.nontrivial.add("placeholder-less out-port")
+    finally:
+        rmtree(d)
+    # an existing output that is not a plain regular file: a symbolic link to a precomputed file; a directory output of a completed run
+    fcl = FC(); fcl["name"] = "FCLINK"
+    d = scratch("lnk")
+    try:
+        prepare_dir(fcl, d)
+        os.makedirs(os.path.join(d, "o"), exist_ok=True); os.makedirs(os.path.join(d, "precomputed"))
+        open(os.path.join(d, "precomputed", "result.txt"), "w").write("USER PRECOMPUTED\n")
+        os.symlink("../precomputed/result.txt", os.path.join(d, "o", "a.out_1.txt"))
+        rr = run_real(fcl, d, timeout=40); chk.evaluations += 1
+        lp = os.path.join(d, "o", "a.out_1.txt")
+        if rr.timeout or rr.deadlock or rr.rc != 0 or not rr.completed:
+            chk.undecided.append("symlink scenario failed rc=%s %s" % (rr.rc, rr.stderr[-200:]))
+        elif "a:1" in exec_counts(rr.cmdlog) or not os.path.islink(lp) or open(lp).read() != "USER PRECOMPUTED\n":
+            chk.violation("an existing output that is a symbolic link placed by the user was %s" % ("re-executed" if "a:1" in exec_counts(rr.cmdlog) else "replaced"), dict(instance=fcl))
+        else:
+            chk.nontrivial.add("symlink output")
+    finally:
+        rmtree(d)
+    dirw = dict(name="DIRW", max=1, bufsize=2,
+                procs=[zoo.src("s", ["1"]),
+                       dict(name="a", kind="cmd", ins=["in"], outs=["parts"], outpaths={"parts": "o/parts"},
+                            arg="echo RAN >> ../ran_a.log; mkdir {o:parts} && for i in 1 2 3; do echo part$i > {o:parts}/p$i; done && cat {i:in} > /dev/null"),
+                       dict(name="b", kind="cmd", ins=["x"], outs=["out"], outpaths={"out": "o/count.txt"}, arg="echo RAN >> ../ran_b.log; cat {i:x}/* | wc -l > {o:out}")],
+                edges=[zoo.E("s.out", "a.in"), zoo.E("a.parts", "b.x")])
+    d = scratch("dirw")
+    try:
+        prepare_dir(dirw, d)
+        r1 = run_real(dirw, d, timeout=40); r2 = run_real(dirw, d, timeout=40); chk.evaluations += 2
+        ran = {x: (open(os.path.join(d, "ran_%s.log" % x)).read().count("RAN") if os.path.exists(os.path.join(d, "ran_%s.log" % x)) else 0) for x in "ab"}
+        if r1.rc != 0 or not r1.completed:
+            chk.undecided.append("directory-output workflow failed: %s" % r1.stderr[-200:])
+        elif r2.timeout or r2.deadlock or r2.rc != 0 or not r2.completed or ran != {"a": 1, "b": 1}:
+            chk.violation("re-running a completed workflow whose task has a directory output: rc=%s completed=%s, commands executed in total a x%d, b x%d (expected once each)"
+                          % (r2.rc, r2.completed, ran["a"], ran["b"]), dict(instance=dirw, stderr=r2.stderr[-300:]))
+        else:
+            chk.nontrivial.add("directory output re-run")
     finally:
         rmtree(d)
     # partial presence inside a multi-output task (user deleted / placed one of two outputs)
